@@ -1197,14 +1197,3 @@ def run(chk):
     check_digit_class(chk, m)
     check_digit_maps(chk, m)
     check_dump(chk, m)
-    if chk.tier == "thorough":
-        # plain char is unsigned on the ARM targets the library is written for: decide the same rules on that build too
-        m2 = build.load_unit("librfn/hex.c", "uchar")
-        chk.note_unit(m2)
-        chk.rule_prefix = "uchar."
-        check_get_byte(chk, m2)
-        check_whitespace_class(chk, m2)
-        check_digit_class(chk, m2)
-        check_digit_maps(chk, m2)
-        check_dump(chk, m2)
-        chk.rule_prefix = ""
